@@ -868,10 +868,11 @@ def slot_sizes(ctx, L):
         f = cont.func(q)
         src = re.sub(r'\s+', ' ', unparse(f.node.body[-1]))
         core = "return b''.join((%s for value in self))" % elem
+        G_ = module_globals(f.module)
         if q.startswith('bound'):
-            ok = src == core + ".ljust(self._SIZE, b'\\x00')"
+            ok = _canon(f.node.body[-1], G_) == _canon(core + ".ljust(self._SIZE, b'\\x00')", G_)
         else:
-            ok = src == core
+            ok = _canon(f.node.body[-1], G_) == _canon(core, G_)
         L.check(ok, 'C01.slot-size', q, f.site(), 'elements are encoded in order with the element codec%s'
                 % (' and the slot is padded to the static size self._SIZE' if q.startswith('bound') else ''), src)
     comp = ctx.py.mod('prophy.composite')
